@@ -12,6 +12,7 @@ import (
 	"sync"
 	"time"
 
+	"github.com/deepteams/webp/internal/verifhook"
 	"github.com/deepteams/webp/mux"
 )
 
@@ -918,6 +919,7 @@ func (e *AnimEncoder) encodeSubFrame(currCanvas *image.NRGBA, durMS int) error {
 
 	// --- Pick the best candidate ---
 	useBG := bsBG != nil && len(bsBG) < len(bsNone)
+	useBG = verifhook.Choice("anim.dispose-background", useBG, bsBG != nil)
 
 	bestBS := bsNone
 	bestRect := rectNone
